@@ -105,6 +105,21 @@ package transport
 //@   modifies nothing
 //@   ensures [C05:route-by-id] ch == c.queue[uint32(qid)]
 
+// newPipelineConn: a new connection starts with an empty waiter table and wire ID 0 (the monitor invariant), is
+// live, and has exactly one reader - started on this very connection.
+//@ func newPipelineConn(c net.Conn, t *PipelineTransport) (pc *pipelineConn)
+//@   props C05
+//@   requires c != nil && t != nil && t.logger != nil
+//@   ghost nGo int = 0
+//@   oncall go: nGo = nGo + 1
+//@   modifies nothing
+//@   ensures pc != nil && fresh(pc) && pcInv(pc) && pcLive(pc) && pc.ctx != nil
+//@   ensures [C05:ids-start-at-zero-no-waiters] pc.nextQid == 0 && pc.reserved == 0 && !pc.closed && forallkey(k, pc.queue, !has(pc.queue, k))
+//@   ensures [C05:this-socket-this-transport] pc.c == c && pc.t == t
+//@   ensures [C05:one-reader] nGo == 1
+//@ func (c *pipelineConn) startLoops()
+//@   inline
+
 // readLoop (the connection's only reader): every reply read is routed by its own ID - to the channel registered
 // under exactly that ID - and is disposed of exactly once: handed to that waiter (without blocking) or released;
 // never both, never twice, never to another waiter. A read error ends the loop by tearing the connection down.
